@@ -213,7 +213,7 @@ def make_decl(r, label, values, order, spelling, naming, rnd, vis='pub'):
             renames[v] = base[i % len(base)] + ('' if i < len(base) else '#%d' % i)
     elif naming == 'idents':
         # identifiers that are legal but unusual: leading underscore, lower case, non-ASCII, digits
-        odd = ['_u', 'lower_case', 'Über', 'X9', 'a', 'Ω', 'snake_case_name', 'CamelCaseName', '__dunder', 'Z']
+        odd = ['_u', 'lower_case', 'r#type', 'Über', 'X9', 'a', 'r#match', 'Ω', 'snake_case_name', 'CamelCaseName', '__dunder', 'Z']
         seen = set()
         for i, v in enumerate(vals):
             nm = odd[i % len(odd)] + ('' if i < len(odd) else str(i))
@@ -254,7 +254,7 @@ def make_decl(r, label, values, order, spelling, naming, rnd, vis='pub'):
             'naming': naming, 'gapless': len(runs_of(vals)) == 1, 'n': n}
 
 def decl_name(decl, v):
-    return v['rename'] if v['rename'] is not None else v['ident']
+    return v['rename'] if v['rename'] is not None else v.get('src_ident', v['ident'])
 
 def sorted_variants(decl):
     return sorted(decl['variants'], key=lambda x: x['value'])
